@@ -11,8 +11,11 @@
    here (the lexer model belongs to another file); it is checked on every run by the
    correspondence harness (real scanner on the real String() vs [tokens_of] of the real tree).
    Property theorems only. *)
+(* source tie by translation: the lemmas of these files are obligations of this property *)
+From Soy Require Import Proofs.SourceTieExpr Proofs.SourceTieQuote.
 From Soy Require Import Model.Bytes Model.Num Model.Values Model.Ast Model.Token Model.NumLit Model.Quote Model.ExprParser
-  Model.AstPrint Generated.Tables Spec.ExprSyntax Proofs.ExprParserRules Proofs.LiteralProofs Proofs.ExprParserProofs.
+  Model.AstPrint Generated.Tables Spec.ExprSyntax Proofs.ExprParserRules Proofs.LiteralProofs Proofs.ExprParserProofs Proofs.PlaceholderTextProofs.
+From Soy Require Import Model.Outcome Model.MsgId Proofs.MsgIdProofs.
 Open Scope N_scope.
 
 (* Parsing the items of the printed expression gives back the expression itself (positions
@@ -41,6 +44,37 @@ Theorem C17_print_command_roundtrip : forall p arg dirs rest,
       parse_print f p (pst_init (tokens_of_print (NPrint p arg dirs) ++ rest)) = POk (NPrint p arg dirs) st'.
 Proof. exact parse_print_roundtrip_cmd. Qed.
 Print Assumptions C17_print_command_roundtrip.
+
+(* Print commands that print the same items (up to positions) are the same (up to positions). *)
+Theorem C17_print_command_injective : forall n1 n2,
+  wf_print n1 -> wf_print n2 ->
+  map strip_tok (tokens_of_print n1) = map strip_tok (tokens_of_print n2) -> strip_pos n1 = strip_pos n2.
+Proof. exact print_command_injective. Qed.
+Print Assumptions C17_print_command_injective.
+
+(* "The message extractor identifies placeholders by this text": in the model of
+   setPlaceholderNames (Model/MsgId.v, where a placeholder is a pair of base name and String()
+   text), two placeholders of one message whose texts are those of well-formed print commands
+   get the same name ONLY IF they are the same print command up to positions, and the same
+   print command under one base name always gets one name.  [lex] is the scanner, abstract
+   here: its one assumed property -- the text printed for a well-formed print command is read
+   as the items tokens_of_print gives, up to positions -- is the token correspondence that the
+   harness checks on every run; everything else is proved. *)
+Theorem C17_placeholders_by_text :
+  forall (lex : bstr -> list tok),
+  (forall n s, wf_print n -> print_node n = Some s -> map strip_tok (lex s) = map strip_tok (tokens_of_print n)) ->
+  forall order body es nm, is_perm order -> msg_entries body = Ok es -> msg_names order body = Ok nm ->
+  forall b1 b2 n1 n2 s1 s2,
+  wf_print n1 -> wf_print n2 -> print_node n1 = Some s1 -> print_node n2 = Some s2 ->
+  In (b1, s1) es -> In (b2, s2) es ->
+  (name_of nm b1 s1 = name_of nm b2 s2 -> b1 = b2 /\ strip_pos n1 = strip_pos n2) /\
+  (b1 = b2 -> strip_pos n1 = strip_pos n2 -> name_of nm b1 s1 = name_of nm b2 s2).
+Proof.
+  intros lex Hlex order body es nm Hp Hes Hnm b1 b2 n1 n2 s1 s2 W1 W2 P1 P2 I1 I2. split.
+  - exact (same_name_same_command lex Hlex order body es nm Hp Hes Hnm b1 b2 n1 n2 s1 s2 W1 W2 P1 P2 I1 I2).
+  - intros -> E. exact (same_command_same_name nm b2 n1 n2 s1 s2 P1 P2 E).
+Qed.
+Print Assumptions C17_placeholders_by_text.
 
 (* The round trip holds for ANY placement of redundant parentheses, not only the printer's
    minimal one (the C01 syntax theorem; C17 is its instance sty_min). *)
